@@ -202,6 +202,59 @@ def rule_R3(ctx, prj):
             ctx.ok("R3", f.site(c), f"{f.local}: report document written unconditionally from one to_json() call")
 
 
+def rule_R4(ctx, prj):
+    """evaluated: a cache document with any one key missing is rejected as a whole, or offers exactly the entries of the intact one"""
+    import json
+    from ..absint import PyRaise, Sym, Unknown
+    from .. import cache_eval as CE
+    ctx.rule("R4", "wrong shape, evaluated: for a cache document written by the repo's writer with any single key removed (every "
+                   "key of every level: report, codebase, tree folders, file entries, measurements, locations), "
+                   "_read_cached_report either yields no cache, or a report of another version (never reused), or a report that "
+                   "offers only file entries of the intact document, unchanged - it never offers an entry with fewer or other "
+                   "functions", floor=20)
+    rd = prj.func("codelimit.commands.scan:_read_cached_report")
+    try:
+        cur = CE.current_version(prj)
+        doc = json.loads(CE.cache_documents(prj)["running version"])
+        intact = CE.read_cached(prj, json.dumps(doc), want_object=True)
+        if not isinstance(intact, Sym):
+            raise Unknown(f"the intact document is read as {intact!r}")
+        ref = CE.entries_of(prj, intact)
+        if not ref or not any(e[3] for e in ref.values()):
+            raise Unknown("the intact document offers no entries with functions")
+        paths = sorted(set(CE.key_paths(doc)), key=repr)
+        results = []
+        for path in paths:
+            r = CE.read_cached(prj, json.dumps(CE.without(doc, path)), want_object=True)
+            if r is None or isinstance(r, str):
+                results.append((path, "rejected" if r is None else r, None))
+                continue
+            if not isinstance(r, Sym):
+                raise Unknown(f"_read_cached_report returns {r!r}")
+            if r.fields.get("version") != cur:
+                results.append((path, "other version", None))
+                continue
+            got = CE.entries_of(prj, r)
+            # an entry that is absent is analysed afresh; an entry that is offered must be the one that was written
+            results.append((path, "same entries" if all(ref.get(k) == v for k, v in got.items()) else "differs", got))
+    except (Unknown, PyRaise) as e:
+        ctx.info(f"R4: cache reader not evaluable ({type(e).__name__}: {e}); the structural rules R1/R2 decide")
+        ctx.rule("R4", "cache reader not evaluable by the interpreter: structural rules R1/R2 decide", floor=0)
+        return
+    for path, verdict, got in results:
+        ptxt = "/".join(str(x) for x in path).encode("unicode_escape").decode()
+        if verdict == "differs":
+            k = next(k for k in got if got[k] != ref.get(k))
+            ctx.viol("R4", f"missing-key/{'/'.join('*' if isinstance(x, int) or i == 2 and path[1] == 'files' or i == 2 and path[1] == 'tree' else str(x) for i, x in enumerate(path))}",
+                     rd.site(), f"a cache document without the key {ptxt} is accepted as a cache of the running version, but its entry "
+                                f"{k!r} reads {str(got.get(k))[:160]} instead of {str(ref.get(k))[:160]}: the next scan reuses it for an "
+                                f"unchanged file and reports other functions than a fresh scan, and writes them back to the cache")
+        elif verdict.startswith("raises"):
+            ctx.viol("R4", f"missing-key-raises/{ptxt}", rd.site(), f"a cache document without the key {ptxt} makes _read_cached_report {verdict}: the scan fails")
+        else:
+            ctx.ok("R4", rd.site(), f"cache without key {ptxt}: {verdict}")
+
+
 def run(ctx, prj: Project):
     ctx.explanation = (
         "Mechanism of C10, decided on the statement tree: must-handle rule for the cache read/parse sites with an "
@@ -216,3 +269,4 @@ def run(ctx, prj: Project):
     rule_R1(ctx, prj, r)
     rule_R2(ctx, prj, r)
     rule_R3(ctx, prj)
+    rule_R4(ctx, prj)
